@@ -7,7 +7,7 @@ cases
   ["script", text]                 -> {"exc", "msg", "audit": [...], "wall"}
   ["expr", src, env]               -> {"res", "prims": [...], "builtins": [...], "audit": [...]}
   ["ref", text]                    -> {"cpp_sha"}        (state-leak probe: same text before / after the stream)
-  ["blowup", n]                    -> {"bits"}            bit length of _eval_const("2**2**n")
+  ["blowup", n]                    -> {"bits", "exc"}     bit length of _eval_const("2**2**n"), or the exception it raises
 """
 import ast
 import hashlib
@@ -218,7 +218,8 @@ def main():
             finally:
                 signal.alarm(0)
         elif c[0] == "tables":
-            out.append({"safe_casts": list(P._SAFE_CASTS), "safe_names": sorted(P._SAFE_NAME_REFERENCES)})
+            out.append({"safe_casts": list(P._SAFE_CASTS), "safe_names": sorted(P._SAFE_NAME_REFERENCES),
+                        "max_const_bits": getattr(P, "_MAX_CONST_BITS", None)})
     json.dump(out, sys.stdout)
 
 
